@@ -31,8 +31,47 @@ def cells(chk):
     return recs
 
 
+# conversion rules the matrix has rows for: the type each `Opaquable` impl in the source is written for
+COVERED_IMPLS = {
+    "cglue/src": {"Fwd<T>", "CBox<'a, T>", "CSliceBox<'a, T>", "CGlueObjContainer<T, C, R>", "&'a T", "&'a mut T", "CGlueTraitObj<'a, T, F, C, R>",
+                  "CArc<T>", "CArcSome<T>",
+                  # not instance handles: markers / the erased target itself
+                  "std::marker::PhantomData<T>", "()", "c_void"},
+    "cglue-gen/src": {"#opt_name<'cglue_a, CGlueInst, CGlueCtx, #gen_use>", "#cont_name<CGlueInst, CGlueCtx, #gen_use>", "#name<'cglue_a, CGlueInst, CGlueCtx, #gen_use>"},
+}
+
+
+def source_rules():
+    """every `Opaquable for <type>` impl header in the tree: a rule the matrix has no row (or candidate row) for makes the run inconclusive"""
+    found, unknown = 0, []
+    for sub, known in COVERED_IMPLS.items():
+        root = os.path.join("/repo", sub)
+        for dp, _, fs in os.walk(root):
+            for f in fs:
+                if not f.endswith(".rs"):
+                    continue
+                txt = open(os.path.join(dp, f), errors="replace").read()
+                for m in re.finditer(r"Opaquable\s+for\s+([^{\n]+?)\s*(?:\{|where|\n)", txt):
+                    if txt[txt.rfind("\n", 0, m.start()) + 1:m.start()].lstrip().startswith("//"):
+                        continue
+                    found += 1
+                    if m.group(1).strip() not in known:
+                        unknown.append("%s: %s" % (os.path.relpath(os.path.join(dp, f), "/repo"), m.group(1).strip()))
+    return found, unknown
+
+
+CANDIDATE_FOR = {"Pin<&'a mut T>": "cand_pin_mut_ref", "Pin<&'a T>": "cand_pin_ref", "Pin<CBox<'a, T>>": "cand_pin_cbox"}
+
+
 def run(chk, replay=None):
     recs = cells(chk)
+    found, unknown = source_rules()
+    unknown = [u for u in unknown if u.split(": ", 1)[1].replace("::core::pin::", "").replace("core::pin::", "") not in CANDIDATE_FOR]
+    chk.part("source-rules", opaquable_impl_headers=found, without_matrix_row=unknown)
+    if found < 15:
+        chk.incon("only %d `Opaquable for` impl headers found in the source (15 on the pinned tree): the rule scan no longer matches the code" % found)
+    if unknown:
+        chk.incon("conversion rule(s) in the source with no matrix row: %s" % "; ".join(unknown))
     st = [r for r in recs if r.get("k") == "stat"]
     selftest = st[0].get("detector_selftest_ok", 0) if st else 0
     n = viol = opaq = 0
@@ -74,10 +113,10 @@ def run(chk, replay=None):
     chk.coverage["evaluations"] = n * 2
     chk.coverage["distinct_nontrivial"] = opaq * 2
     chk.coverage["exhaustive"] = True
-    chk.coverage["rule"] = ("complete matrix: 25 conversion rules (shared/mutable reference, CBox, CSliceBox, CArc, CArcSome, Fwd, object containers, generated object types Box/Mut/Ref with and "
+    chk.coverage["rule"] = ("complete matrix: 28 conversion rules (shared/mutable reference, CBox, CSliceBox, CArc, CArcSome, Fwd over each of them, object containers, generated object types Box/Mut/Ref with and "
                             "without context and with a CArcSome instance, generated group types, cast group) x 4 payload classes {Send,!Send}x{Sync,!Sync} x markers {Send,Sync}; each cell is "
                             "evaluated by the trait solver inside an executed probe (inherent const shadows trait const). A cell violates when the opaque type has a marker its instance handle "
-                            "lacks. distinct = (opaquable cell, marker) pairs. Safe-code witnesses of representative cells are run under Miri's race detector")
+                            "lacks. 22 candidate handle shapes that have no rule on the pinned tree (Pin<..>, Option<..>, Box, Arc, Rc, raw pointers, CVec, slices, tuples; bare, inside Fwd, a container, an object and a group) are probed the same way and are vacuous until a rule appears; the `Opaquable for` headers in the source are counted and one without a row makes the run inconclusive. distinct = (opaquable cell, marker) pairs. Safe-code witnesses of representative cells are run under Miri's race detector")
     chk.floor("matrix cells", n, 90)
     chk.floor("detector self-test", selftest, 1)
     chk.assumptions += ["auto-trait judgements are the compiler's; the probe only reads them out per concrete type",
